@@ -92,6 +92,8 @@ structure OutI where
   face : FaceId
   nonce : Nat
   sentAt : Time
+  /-- expiry of the out-record: the PIT entry certainly lives until then (unless satisfied) -/
+  expiry : Time
 deriving Repr
 
 /-- what the ledger knows about one (name, nonce) key of the dead nonce list -/
@@ -197,13 +199,14 @@ def advance (sp : SpSt) (dt : Nat) : SpSt :=
   let sp := { sp with now := now }
   /- PIT entries that may have expired by now were finalised: the nonces of their out-records may have
      been put on the dead nonce list (an entry with a certainly live in-record has not expired) -/
-  let before := now - dt
   let sp := sp.outs.foldl (fun sp o =>
     if sp.pends.any (fun p => p.key == o.key && p.certain now) then sp
     else match horizonOf sp o.key with
       | some h =>
-        -- an entry whose last record has certainly run out was finalised during this advance
-        if now > h + slack then dInsertIn sp (o.key.name, o.nonce) before (h + slack)
+        /- every record of the entry has certainly run out: the entry holding this out-record was
+           finalised at some instant between the out-record's own expiry (until then it kept the
+           entry alive) and the end of the entry's last possible lifetime -/
+        if now > h + slack then dInsertIn sp (o.key.name, o.nonce) o.expiry (h + slack)
         else dInsertAt sp (o.key.name, o.nonce) false now
       | none => dInsertAt sp (o.key.name, o.nonce) false now) sp
   { sp with
@@ -364,7 +367,7 @@ def onInterest (sp : SpSt) (f : FaceId) (i : Interest) (obs : List Obs) (pit cs 
           | xs => xs.foldl (fun acc x => dInsert acc (i.name, x) false) sp1
         else sp1
       | none => sp1
-    let outs := isends.foldl (fun acc o => ⟨key, o.face, nonce, sp.now⟩ :: acc.filter (fun x => !(x.key == key && x.face == o.face))) sp1.outs
+    let outs := isends.foldl (fun acc o => ⟨key, o.face, nonce, sp.now, dl⟩ :: acc.filter (fun x => !(x.key == key && x.face == o.face))) sp1.outs
     let issued := isends.foldl (fun acc o => match labelOfTok o.tok with
       | some k => if acc.any (·.1 == k) then acc else (k, key, sp.now) :: acc
       | none => acc) sp1.issued
